@@ -341,7 +341,8 @@ let run_wire line =
           let st = (match k with "S" -> 1 | "E" -> 2 | "I" -> 3 | _ -> raise Bad) in
           (st, c4v)
         | _ -> raise Bad) recs in
-    let opt = function Some x -> decimal_of_n x | None -> "-" in
+    (* an absent Gigawords attribute and one with value 0 are the same report *)
+    let opt = function Some x -> decimal_of_n x | None -> "0" in
     let toks = List.map (fun (st, c) ->
         let w = encode_wire (n_of_int st) c in
         String.concat ":" [decimal_of_n w.w_status; decimal_of_n w.w_in_oct; decimal_of_n w.w_out_oct; opt w.w_in_giga;
